@@ -151,12 +151,12 @@ def classify(op_line, impl_line, model_line):
     op = (op_line.split() or ["?"])[0]
     if impl_line.startswith("<missing") or impl_line == "crash":
         return "krt:crash", "the real krt collections panicked or the harness stopped"
-    if op in ("stream", "ustream", "pstream", "dstream", "xstream"):
+    if op in ("stream", "ustream", "pstream", "dstream", "xstream", "istream"):
         kind = "event" if "reject:event" in model_line else ("contents" if "reject:contents" in model_line else "other")
         return ("krt:stream:%s" % kind,
                 "a subscriber's recorded event stream is rejected by the verified monitor (%s)" % model_line)
-    if op in ("list", "get", "lookup", "ulist", "ulookup", "flookup", "vlookup", "ilist", "iget"):
-        return ("krt:%s" % ("lookup" if op in ("flookup", "vlookup") else op.lstrip("ui")),
+    if op in ("list", "get", "lookup", "ulist", "ulookup", "flookup", "vlookup", "ilist", "iget", "ilookup"):
+        return ("krt:%s" % ("lookup" if op in ("flookup", "vlookup", "ilookup") else op.lstrip("ui")),
                 "%s on the real collection differs from the transformation applied to the current inputs" % op)
     return "krt:%s" % op, "model and implementation answer differently to '%s'" % op_line
 
@@ -315,6 +315,7 @@ def run(ctx):
     run_stream(ctx, "joinnr", ctx.n(150, 3000))
     run_stream(ctx, "misc", ctx.n(800, 20000))
     run_stream(ctx, "idxc", ctx.n(600, 15000))
+    run_stream(ctx, "inf", ctx.n(200, 3000))
     run_stream(ctx, "mem", ctx.n(600, 15000))
     # last: the exact correspondence of the runtime model (a difference here with no violation above ends as
     # `no-failing-input-found`)
